@@ -219,9 +219,11 @@ func (s *ethereumService) Handle(ctx context.Context, conn net.Conn) error {
 		return err
 	}
 
+	// a body that is no JSON-RPC object (a batch, no body at all, not JSON) is reported all
+	// the same, with the payload as it came
 	jsonRequest := map[string]interface{}{}
 	if err := json.Unmarshal(data, &jsonRequest); err != nil {
-		return err
+		log.Debugf("ethereum: request body is not a JSON object: %s", err.Error())
 	}
 
 	method := ""
